@@ -46,6 +46,7 @@ static unsigned char *unhex(const char *s, size_t *n) {
   b[l] = 0; *n = l; return b;
 }
 
+static pthread_t main_thread;
 struct srv { int lfd; char *script; unsigned char *rcv; size_t nrcv, cap; };
 
 static void msleep(long ms) { struct timespec t = { ms / 1000, (ms % 1000) * 1000000L }; nanosleep(&t, NULL); }
@@ -75,6 +76,7 @@ static void *srv_main(void *arg) {
                 while (off < n) { ssize_t w = send(fd, b + off, n - off, MSG_NOSIGNAL); if (w <= 0) break; off += w; }
                 free(b); break; }
     case 'S': msleep(strtol(a + 1, NULL, 10)); break;
+    case 'I': pthread_kill(main_thread, SIGUSR1); msleep(20); break;
     case 'C': srv_read(s, fd, s->nrcv, 0); close(fd); fd = -1; break;
     case 'X': { struct linger l = { 1, 0 }; setsockopt(fd, SOL_SOCKET, SO_LINGER, &l, sizeof l); close(fd); fd = -1; break; }
     }
@@ -84,8 +86,24 @@ static void *srv_main(void *arg) {
   return NULL;
 }
 
+/* watchdog: a module call that does not return within 8 s is reported and the process ends */
+static volatile int wd_armed; static volatile long wd_case; static const char *volatile wd_line;
+static void *wd_main(void *arg) {
+  (void)arg; long seen = -1; int ticks = 0;
+  for (;;) {
+    msleep(100);
+    if (!wd_armed) { ticks = 0; continue; }
+    if (wd_case != seen) { seen = wd_case; ticks = 0; continue; }
+    if (++ticks >= 80) { printf("%s => hang\n", wd_line ? wd_line : "?"); fflush(stdout); _exit(78); }
+  }
+  return NULL;
+}
+static void on_usr1(int sig) { (void)sig; }
+
 int main(int argc, char **argv) {
   signal(SIGPIPE, SIG_IGN);
+  { struct sigaction sa; memset(&sa, 0, sizeof sa); sa.sa_handler = on_usr1; sigaction(SIGUSR1, &sa, NULL); } /* no SA_RESTART */
+  { pthread_t wd; pthread_create(&wd, NULL, wd_main, NULL); }
   const char *dir = argc > 1 ? argv[1] : ".";
   char *line = NULL; size_t cap = 0; ssize_t len; long id = 0;
   while ((len = getline(&line, &cap, stdin)) > 0) {
@@ -108,6 +126,7 @@ int main(int argc, char **argv) {
       pthread_create(&th, NULL, srv_main, &s); have_thread = 1;
     }
     struct pam_handle h = { (const char *)user, NULL, (const char *)pw, 0 };
+    int stale_eintr = 0;
     const char *av[16]; int ac = 0; char sockopt[140]; snprintf(sockopt, sizeof sockopt, "sock=%s", path);
     av[ac++] = sockopt; av[ac++] = "timeout=1";
     char *osave = NULL; char *ocopy = strdup(opts);
@@ -115,9 +134,14 @@ int main(int argc, char **argv) {
       if (!strcmp(o, "-")) continue;
       if (!strcmp(o, "nopw")) { h.convpw = NULL; continue; }
       if (!strcmp(o, "stackpw")) { h.authtok = strdup((const char *)pw); h.convpw = "wrong-conversation-password"; continue; }
+      if (!strcmp(o, "eintr")) { stale_eintr = 1; continue; }   /* harness option: the caller's errno is a stale EINTR */
       av[ac++] = o;
     }
+    wd_line = line; wd_case = id; wd_armed = 1;
+    main_thread = pthread_self();
+    if (stale_eintr) errno = EINTR;
     int rc = pam_sm_authenticate(&h, 0, ac, av);
+    wd_armed = 0;
     if (have_thread) { pthread_join(th, NULL); close(s.lfd); }
     unlink(path);
     printf("%s => %d x", line, rc);
